@@ -38,7 +38,10 @@ def make_copy(edits):
     for rel, old, new in edits:
         p = os.path.join(d, rel)
         s = open(p, encoding="utf-8").read()
-        if s.count(old) != 1:
+        every = old.startswith("EVERY:")   # an edit applied to all (>= 1) occurrences, e.g. the two sibling branches of a reader
+        if every:
+            old = old[len("EVERY:"):]
+        if (s.count(old) < 1) if every else (s.count(old) != 1):
             shutil.rmtree(d, ignore_errors=True)
             return None, f"snippet matches {s.count(old)} times in {rel}"
         open(p, "w", encoding="utf-8").write(s.replace(old, new))
